@@ -327,7 +327,7 @@ def work(item):
     mode, probes = item
     res = {"runs": 0, "probes": 0, "agree": 0, "per_method": {}, "open": {}, "fail_confirmed": 0, "fail_classes": {},
            "deviations": [], "rejected": [], "inconclusive": [], "sample": None, "hashes": [], "prefix_obs": [],
-           "kinds": {}}
+           "kinds": {}, "unit_examples": {}}
 
     def account(probe, spec, static, observed, from_solo, sol=None):
         res["probes"] += 1
@@ -340,8 +340,12 @@ def work(item):
                 res["hashes"].append(core.h([probe[0], enc(probe[1]), [enc(a) for a in probe[2]]]))
             else:
                 rd = res["open"].setdefault(probe[0], {})
-                name = spec.reading_of(observed)       # which reading the implementation took
+                name = spec.reading_of(observed)       # which reading(s) the implementation's result fits
                 rd[name] = rd.get(name, 0) + 1
+                if name and ("chars" in name.split("|") or "bytes" in name.split("|")):
+                    ex = res["unit_examples"].setdefault(probe[0], {})
+                    if name not in ex:
+                        ex[name] = "%s -> %s" % (human(probe), obs_text(observed))
                 if probe[1][0] == "str" and probe[0].startswith("parse_") and \
                         probe[1][1].lower().lstrip("-").startswith("0x") and len(res["prefix_obs"]) < 40:
                     res["prefix_obs"].append("%s -> %s" % (human(probe), obs_text(observed)))
@@ -517,6 +521,11 @@ def catalogue(thorough=False):
         for i in idx + [2147483647, -2147483648]:
             add("index", r, I(i))
             add("split", r, I(i))
+        # bigint indices (the index may be int or bigint): in range, and values whose low 64 bits are in range
+        n_ = len(s)
+        for i in sorted(set([0, 1, max(n_ - 1, 0), n_, -1, 2 ** 64, 2 ** 64 + 1, 2 ** 64 + max(n_ - 1, 0), 2 ** 65,
+                             -(2 ** 64 - 1), -(2 ** 64), 2 ** 127 - 1, -(2 ** 127)])):
+            add("index", r, ("bigint", i))
         for a in idx:
             for b in idx:
                 add("substring", r, I(a), I(b))
@@ -824,6 +833,7 @@ def run(ctx):
            "random_probes": len(rnd), "probes_batched": n_batchable, "probes_run_alone": n_solo,
            "compiler_rejected": 0}
     per_method, open_obs, fail_classes, kinds = {}, {}, {}, {}
+    unit_examples = {}
     rejected_examples, prefix_obs, devs = [], [], []
     for status, res in results:
         if status != "ok":
@@ -846,6 +856,10 @@ def run(ctx):
             d = open_obs.setdefault(mth, {})
             for k, v in rd.items():
                 d[k] = d.get(k, 0) + v
+        for mth, ex in res["unit_examples"].items():
+            d = unit_examples.setdefault(mth, {})
+            for k, v in ex.items():
+                d.setdefault(k, v)
         for r in res["rejected"]:
             if len(rejected_examples) < 5:
                 rejected_examples.append(r)
@@ -873,6 +887,27 @@ def run(ctx):
         out.violations.append(core.Violation(
             sig, "%s: expected %s, observed %s (%d cases)" % (w["call"], " | ".join(w["expected"])[:160],
                                                               w["observed"][:120], len(ds)), witness))
+    # one index unit per method: on multi-byte text both the character and the UTF-8 byte reading are accepted, but
+    # all results of ONE method must fit ONE of them (a bound counted in characters next to a cut made in bytes
+    # fits neither).  A result both readings agree on, and a failure, are compatible with either.
+    unit_of_method = {}
+    for mth in sorted(open_obs):
+        names = [set(k.split("|")) for k in open_obs[mth]
+                 if k and set(k.split("|")) & {"chars", "bytes"} and "failure" not in k.split("|")]
+        if not names:
+            continue
+        fits = {"chars", "bytes"}
+        for nset in names:
+            fits &= (nset & {"chars", "bytes"})
+        unit_of_method[mth] = sorted(fits)
+        if not fits:
+            ex = unit_examples.get(mth, {})
+            out.violations.append(core.Violation(
+                "C14:%s:inconsistent_index_unit" % mth,
+                "%s: some results only fit offsets counted in characters, others only offsets counted in UTF-8 bytes"
+                % mth, {"method": mth, "readings_fitted(count)": open_obs[mth], "examples": ex,
+                        "files": {"note.txt": json.dumps(ex, indent=1, ensure_ascii=False)}}))
+    agg["index_unit_fitting_all_results_of_the_method"] = unit_of_method
     missing = [m for m in STATEMENT_METHODS if not any(k.startswith(m + ":") for k in per_method)]
     agg.update({"probes_per_method_and_receiver_kind": dict(sorted(per_method.items())),
                 "methods_without_a_compared_probe": missing,
